@@ -352,8 +352,8 @@ func runVerify(w *World, opt verifyOpts) int {
 	for _, a := range sortedKeys(w.uncontracted) {
 		assumptions = append(assumptions, "called without contract (result unconstrained, heap havocked): "+a)
 	}
-	for _, ca := range w.axioms {
-		assumptions = append(assumptions, "library axiom "+ca.ax.Name+": "+ca.ax.Text)
+	for _, a := range sortedKeys(w.axiomsUsed) {
+		assumptions = append(assumptions, "library axiom (instantiated explicitly) "+a)
 	}
 	assumptions = append(assumptions, carveNotes...)
 	ev := map[string]any{
